@@ -454,6 +454,8 @@ func anywhere(r rune, p *Parser) stateFn {
 			p.exit()
 			p.exit = nil
 		}
+		// a cancelled string is not ended by an ST
+		p.ignoreST = false
 		p.execute(r)
 		return ground
 	case r == 0x1B:
@@ -963,6 +965,8 @@ func oscString(r rune, p *Parser) stateFn {
 	case r == 0x07:
 		p.exit()
 		p.exit = nil
+		// the string was ended by BEL, no ST will follow
+		p.ignoreST = false
 		return ground
 	case in(r, 0x00, 0x17), r == 0x19, in(r, 0x1C, 0x1F):
 		// ignore
